@@ -58,6 +58,13 @@ pub fn classify_panic(payload: Box<dyn Any + Send>) -> PanicKind {
 }
 
 static PANIC_HOOK: Once = Once::new();
+static QUIET_ALL: std::sync::atomic::AtomicBool = std::sync::atomic::AtomicBool::new(false);
+
+/// Engines whose cases make library threads panic on purpose (poisoned mutexes on
+/// blocking threads) silence every panic message.
+pub fn quiet_all_panics() {
+    QUIET_ALL.store(true, std::sync::atomic::Ordering::Relaxed);
+}
 
 /// Installs a process wide panic hook that stays silent (unless VERIF_VERBOSE is
 /// set) and remembers the panic location for `classify_panic`.
@@ -71,7 +78,7 @@ pub fn install_quiet_panic_hook() {
                 .map(|l| format!("{}:{}", l.file(), l.line()))
                 .unwrap_or_default();
             LAST_PANIC.with(|l| l.set(Some(loc)));
-            let in_op = CUR_OP.with(|c| c.get()) != 0;
+            let in_op = CUR_OP.with(|c| c.get()) != 0 || QUIET_ALL.load(std::sync::atomic::Ordering::Relaxed);
             if (verbose || !in_op) && info.payload().downcast_ref::<Injected>().is_none() {
                 prev(info);
             }
